@@ -279,7 +279,7 @@ def run(eng, rep) -> None:
     rep.ok("R04.5", "src/fcp/encoding.py", VALUE, "stores to *.extended_data anywhere: %d" % n_mut, "options dicts are read-only")
     r047(eng, rep, enc, reach, live, arg_of)
     # ---- R04.8 ----------------------------------------------------------------------
-    from ..dataflow import head_reads_in_descent
+    from ..dataflow import head_reads_in_descent, overwrites_in_descent
     n_desc = 0
     for f_ in prog.functions.values():
         if f_.module.name not in ("fcp.encoding", "fcp.specs.type"):
@@ -287,6 +287,8 @@ def run(eng, rep) -> None:
         n_desc += 1
         for w_, st_, txt_ in head_reads_in_descent(f_.node):
             rep.violation("R04.8", f_.file, f_.qual, txt_[:70], "the loop walks down the nested type but multiplies/adds the size of the type it started from at every level: for nested arrays of different sizes the computed length is wrong, so the leaves that follow are misplaced")
+        for w_, st_, txt_ in overwrites_in_descent(f_.node):
+            rep.violation("R04.8", f_.file, f_.qual, txt_[:70], "the loop walks down the nested type and replaces the element count at every level instead of accumulating it: only the innermost dimension of a nested array counts, so the computed length is too small")
     rep.ok("R04.8", "-", "-", "descent loops over nested types", "%d functions scanned" % n_desc)
     # ---- R04.6 ----------------------------------------------------------------------
     for f in reach:
